@@ -5,7 +5,7 @@ from oracle_util import *  # noqa
 from tokutil import *  # noqa
 
 ID = "C01"
-LEAN_MODULE = ["SCoda.Props.C01", "SCoda.Props.C01b", "SCoda.Props.C01Glue", "SCoda.Props.C02", "SCoda.Props.C01c", "SCoda.Props.TokTie"]
+LEAN_MODULE = ["SCoda.Props.C01", "SCoda.Props.C01b", "SCoda.Props.C01Glue", "SCoda.Props.C02", "SCoda.Props.C01c", "SCoda.Props.TokTie", "SCoda.Props.C01n"]
 LEVEL = "proof"
 CLAUSES = [
     ("every token tokenise emits is in the vocabulary, and decode(encode(tokens)) = tokens",
@@ -38,6 +38,8 @@ CLAUSES = [
      ["SCoda.C01c.duration_no_tail", "SCoda.C01c.duration_piece", "SCoda.C01c.duration_statement_false"]),
     ("TIE BY TRANSLATION, tokeniser: MultiTrackLargeVocabularyNotelikeTokeniser is re-translated statement by statement on every run (Gen/TokFns.lean, tools/py2lean_tok.py: __init__, _construct_dictionary, tokenise with its closure _apply_rest as a fuelled loop, detokenise, get_info, encode, decode; f-strings as string concatenation, dicts as association lists, floats as exact rationals) and each translation is proved equal to the hand model the theorems above are about, on rendered token strings: tokenise = tokeniseCore on extract (track count = num_tracks, state denominator ≠ 0, 0 ≤ ppqn·4·n — the excluded points raise in the source, proved: tokenise_wrong_length, tokenise_zero_denominator; the unrestricted statement is refuted), detokenise = model detokenise (0 ≤ ppqn, natural-number token fields), encode / decode = the model's id maps",
      ["SCoda.TokTie.tokenise_eq", "SCoda.TokTie.tokenise_eq'", "SCoda.TokTie.tokenise_fresh", "SCoda.TokTie.tokenise_fresh'", "SCoda.TokTie.tokenise_none", "SCoda.TokTie.stOfDict_nil", "SCoda.TokTie.tokenise_wrong_length", "SCoda.TokTie.tokenise_zero_denominator", "SCoda.TokTie.tokenise_eq_statement_false", "SCoda.TokTie.detokenise_eq", "SCoda.TokTie.detokenise_step", "SCoda.TokTie.encode_eq", "SCoda.TokTie.decode_eq", "SCoda.TokTie.tokInit_eq'"]),
+    ("duration on the exact complement of D15's failing class (audit round 2 A4a): no detokenised sequence ever lasts longer than the end of the last bar; outside HasTail' (= HasTail and the latest note end is not the end of the last bar) the longest sequence lasts exactly that long (one-track piece: the sequence), and sequence i does whenever a note of track i ends there; 'every sequence' and 'end of the piece on a bar end' are refuted (two tracks [0,96)/[0,24): library durations 96/24; note [0,48)+rest+key signature at 96: library duration 48)",
+     ["SCoda.C01n.duration_no_tail'", "SCoda.C01n.duration_no_tail_single", "SCoda.C01n.duration_seq", "SCoda.C01n.duration_le", "SCoda.C01n.duration_each_statement_false", "SCoda.C01n.duration_pieceEnd_statement_false"]),
 ]
 RULE = ("valid multi-track pieces (1-3 tracks, 1-5 bars, <=3 notes per bar and track, signature changes on bar lines, rests "
         "crossing bar lines, simultaneous notes across tracks) x configurations (all 16 flag combinations sampled, velocity "
